@@ -174,7 +174,10 @@ def main():
         n += 1
         rp = os.path.join(a.work, 'replay-%d.json' % n)
         json.dump({'property': a.id, 'tier': a.tier, 'seed': a.seed, 'case': c, 'key': k, 'msg': msg, 'witness': w}, open(rp, 'w'), indent=1, default=str)
-        print('VIOLATION property=%s replay=%s key=%s %s' % (a.id, rp, k, msg[:300]))
+        if n <= 12:
+            print('VIOLATION property=%s replay=%s key=%s %s' % (a.id, rp, k, msg[:300]))
+    if n > 12:
+        print('... and %d more distinct violation keys for property=%s (replay files %s/replay-13.json ...; all keys are in the evidence file)' % (n - 12, a.id, a.work))
 
     cov = {
         'evaluations': int(verdict.get('evaluations', 0)),
